@@ -30,12 +30,12 @@ TRUSTED_BASE = [
 # ---------------------------------------------------------------------------------------------------
 PROPS = {
     'C01': dict(streams=['write', 'dict']),
-    'C02': dict(streams=['ticks', 'midix', 'write']),
+    'C02': dict(streams=['ticks', 'midix', 'write'], modules=['C02', 'C02Float']),
     'C03': dict(streams=['scale', 'conv']),
     'C04': dict(streams=['lex', 'parse', 'conv']),
     'C05': dict(streams=['threeway', 'conv']),
     'C06': dict(streams=['midix', 'write']),
-    'C07': dict(streams=['ticks', 'write']),
+    'C07': dict(streams=['ticks', 'write'], modules=['C07', 'C07Float']),
     'C08': dict(streams=['midix', 'write']),
     'C09': dict(streams=['robust', 'conv', 'write', 'dict']),
     'C10': dict(streams=['conv', 'wconv', 'note', 'scale']),
@@ -137,19 +137,23 @@ def broken_obligations(out):
         res.append(dict(file=path, line=line, theorem=theorem_at(path, line), message=msg[:400]))
     return res
 
+def prop_modules(pid):
+    return PROPS[pid].get('modules', [pid])
+
 def prop_theorems(pid):
-    path = os.path.join(LEAN, 'Crd', 'Props', pid + '.lean')
     names = []
-    for l in open(path, encoding='utf-8'):
-        m = re.match(r'theorem\s+([^\s:({\[]+)', l)
-        if m:
-            names.append('Crd.Props.%s.%s' % (pid, m.group(1)))
+    for mod in prop_modules(pid):
+        path = os.path.join(LEAN, 'Crd', 'Props', mod + '.lean')
+        for l in open(path, encoding='utf-8'):
+            m = re.match(r'theorem\s+([^\s:({\[]+)', l)
+            if m:
+                names.append('Crd.Props.%s.%s' % (pid, m.group(1)))
     return names
 
 def audit(pid):
     """run #print axioms on every property theorem; returns (dict name -> axioms, problems)"""
     names = prop_theorems(pid)
-    src = 'import Crd.Props.%s\n' % pid + ''.join('#print axioms %s\n' % n for n in names)
+    src = ''.join('import Crd.Props.%s\n' % m for m in prop_modules(pid)) + ''.join('#print axioms %s\n' % n for n in names)
     path = os.path.join(LEAN, 'Crd', 'Audit', pid + '.lean')
     if not os.path.exists(path) or open(path).read() != src:
         open(path, 'w').write(src)
@@ -308,7 +312,7 @@ def write_evidence(pid, tier, seed, t0, obligations, discharged, checker_cmd, st
     cov = dict(
         obligations=obligations, discharged=discharged, checker_cmd=checker_cmd, trusted_base=TRUSTED_BASE,
         evaluations=sum(s['cases'] for s in streams), distinct_nontrivial=sum(s['distinct'] for s in streams),
-        rule="proof obligations = property theorems of lean/Crd/Props/%s.lean, each checked by the Lean kernel and audited with #print axioms; "
+        rule="proof obligations = property theorems of lean/Crd/Props/%s*.lean, each checked by the Lean kernel and audited with #print axioms; "
              "correspondence cases = harness streams (seeded generators + exhaustive finite products) run through the real Go code and the Lean model; "
              "distinct = distinct request lines" % pid,
         samples=samples or ['(no samples)'],
@@ -348,7 +352,7 @@ def check_property(pid, tier, seed):
                 os.environ['CRD_RACE_BIN'] = race
             else:
                 problems.append(dict(kind='race-build', detail=p.stderr.decode(errors='replace')[-500:]))
-        targets = ['Crd.Props.' + pid, 'crd_driver']
+        targets = ['Crd.Props.' + m for m in prop_modules(pid)] + ['crd_driver']
         built, out = lake_build(targets)
         names = []
         discharged = 0
@@ -424,7 +428,7 @@ def check_property(pid, tier, seed):
             print("VIOLATION property=%s replay=%s no-failing-input-found" % (pid, path))
             rc = 1
         write_evidence(pid, tier, seed, t0, max(len(names), 1), discharged if not problems else min(discharged, len(names)),
-                       "cd /verif/lean && lake build Crd.Props.%s && lake env lean Crd/Audit/%s.lean" % (pid, pid),
+                       "cd /verif/lean && lake build %s && lake env lean Crd/Audit/%s.lean" % (' '.join('Crd.Props.' + m for m in prop_modules(pid)), pid),
                        streams, len(unknown) + (1 if (problems and not unknown) else 0),
                        dict(theorems=names, coverage=dict(problems=[str(p)[:300] for p in problems[:10]], known_findings=known_lines),
                             assumptions=cfg.get('assumptions', [])))
